@@ -1,9 +1,10 @@
-(** C02 at the level of one ACE: converting a reader-built, group-free extended ACE to the other
-    platform returns an ACE with the same action that matches exactly the same packets. *)
+(** C02 at the level of one ACE: converting a reader-built extended ACE (single addresses or
+    address-group references, with or without attached members) to the other platform returns an
+    ACE with the same action that matches exactly the same packets. *)
 From V Require Import base.Prelude base.Strs gen.Tables model.Cfg model.Names model.Wildcard
   model.Addr model.Ports model.Ace model.Lex model.AddrText model.AceText model.AclText model.SplitPorts model.Platform
   spec.AceSem spec.AclSem proofs.WildProofs proofs.AddrProofs proofs.NamesProofs proofs.PortsProofs
-  proofs.TextProofs proofs.SplitterProofs proofs.AceFixProofs proofs.AddrObjProofs proofs.ParsedAceProofs
+  proofs.TextProofs proofs.SplitterProofs proofs.AceFixProofs proofs.AddrObjProofs proofs.ParsedAceProofs proofs.GroupAceProofs
   proofs.DeleteShadowProofs proofs.PlatformProofs.
 Local Open Scope N_scope.
 
@@ -134,8 +135,56 @@ Proof.
   - rewrite (HE eq_refl). reflexivity.
 Qed.
 
+(** * the addresses of an entry: reader-built singles or address-group references *)
+(** [mem]: may the reference carry attached members?  (They are not part of the line: an object
+    rebuilt from its text has none - C02 keeps them through the platform setter, C17's text
+    operations are stated without them.) *)
+Definition addr_src (mem : bool) (pl : platform) (limit : Z) (a : addr) : Prop :=
+  (exists sp, sp_bounds sp /\ ~ is_n1 pl sp /\ addr_of_spelling pl limit sp = Ok a)
+  \/ (exists name items, a = AGroup name items /\ check_name name = true /\ after_group_kw name = false
+                         /\ (mem = false -> items = [])).
+
+(** the converted address: singles re-typed for the target, group references kept with their members *)
+Definition conv_addr (pl' : platform) (a : addr) : addr :=
+  match a with ASingle _ w => ASingle (std_type pl' w) w | AGroup n items => AGroup n items end.
+(** what the target's reader builds from the rendered address (no members on the line) *)
+Definition reparsed (pl' : platform) (a : addr) : addr :=
+  match a with ASingle _ w => ASingle (std_type pl' w) w | AGroup n _ => AGroup n [] end.
+
+Lemma wild_spelling pl' limit a m w : (pl' = Ios \/ pl' = Nxos) -> a < 2 ^ 32 -> m < 2 ^ 32 -> new_wild limit a m = Ok w ->
+  sp_bounds (SWild a m) /\ ~ is_n1 pl' (SWild a m)
+  /\ addr_of_spelling pl' limit (SWild a m) = Ok (ASingle (std_type pl' w) w).
+Proof.
+  intros Hpl' Ha Hm NW.
+  assert (B : sp_bounds (SWild a m)) by (split; assumption).
+  assert (NN : ~ is_n1 pl' (SWild a m)) by (intros [_ [x Hx]]; discriminate).
+  split; [exact B|]. split; [exact NN|].
+  assert (E : exists ty, addr_of_spelling pl' limit (SWild a m) = Ok (ASingle ty w)).
+  { unfold addr_of_spelling. rewrite NW. cbn [bind]. eexists. reflexivity. }
+  destruct E as [ty E]. destruct (reader_std pl' limit (SWild a m) ty w Hpl' B NN E) as (-> & _). exact E.
+Qed.
+
+Lemma addr_conv mem pl pl' limit a : (pl = Ios \/ pl = Nxos) -> (pl' = Ios \/ pl' = Nxos) -> addr_src mem pl limit a ->
+  parse_address_text pl' limit (render_addr pl' (retype pl' a)) = Ok (reparsed pl' a)
+  /\ (exists A, split_ws (render_addr pl' (retype pl' a)) = A /\ addr_toks A (render_addr pl' (retype pl' a)) /\ names_ok A)
+  /\ addr_src mem pl' limit (conv_addr pl' a)
+  /\ sets_of (conv_addr pl' a) = sets_of a.
+Proof.
+  intros Hpl Hpl' [(sp & B & NN & A)|(name & items & -> & HN & HK & HM)].
+  - destruct (reader_single pl limit sp a B A) as (ty & w & ->).
+    destruct (reader_std pl limit sp ty w Hpl B NN A) as (_ & a1 & m1 & Ha1 & Hm1 & NW1).
+    destruct (retype_reparse pl' limit a1 m1 w ty Hpl' Ha1 Hm1 NW1) as (R & C).
+    split; [exact R|]. split; [exact C|]. split; [|reflexivity].
+    left. exists (SWild a1 m1). now apply wild_spelling.
+  - cbn [retype conv_addr reparsed].
+    change (render_addr pl' (AGroup name items)) with (render_addr pl' (AGroup name [])).
+    split; [now apply group_text_fixpoint|]. split; [now apply group_text_canon|]. split; [|reflexivity].
+    right. exists name, items. auto.
+Qed.
+
 (** * THE THEOREM: converting one reader-built ACE *)
 Section Conv.
+  Variable mem : bool.
   Variable c : cfg.
   Variable pl' : platform.
   Let pl := plat c.
@@ -144,15 +193,16 @@ Section Conv.
   Hypothesis Hpl : pl = Ios \/ pl = Nxos.
   Hypothesis Hpl' : pl' = Ios \/ pl' = Nxos.
 
-  Variables (permit : bool) (n sq : N) (ssp dsp : spelling) (s d : addr) (toks1 toks2 : list string)
+  Variables (permit : bool) (n sq : N) (s d : addr) (toks1 toks2 : list string)
             (p1 p2 : port) (opts flags logs : list string).
   Let pc' := proto_ctx pl' (is15 c) n.
   Let t := mkTace true sq (mkAce permit n s d p1 p2 flags logs) opts.
 
   Hypothesis Hn : n <= 255.
-  (** the addresses were built by the reader of the source platform from native spellings *)
-  Hypothesis Hs : sp_bounds ssp /\ ~ is_n1 pl ssp /\ addr_of_spelling pl limit ssp = Ok s.
-  Hypothesis Hd : sp_bounds dsp /\ ~ is_n1 pl dsp /\ addr_of_spelling pl limit dsp = Ok d.
+  (** the addresses: built by the reader of the source platform from native spellings, or
+      address-group references *)
+  Hypothesis Hs : addr_src mem pl limit s.
+  Hypothesis Hd : addr_src mem pl limit d.
   (** the port expressions are valid on the target platform as well (single-port eq / neq on
       NX-OS: Acl.platform ungroups first, C19) *)
   Hypothesis Hp1 : parse_port pl' pc' toks1 = Ok p1 /\ (pc' = None -> p1 = empty_port).
@@ -160,23 +210,20 @@ Section Conv.
   Hypothesis Ho : Forall token opts /\ Forall af opts /\ parse_option opts = Ok (flags, logs)
                   /\ split_dstport_option (render_port (port_nr c) pc' p2 ++ opts) = (render_port (port_nr c) pc' p2, opts).
 
-  Theorem ace_conversion :
-    exists r, ace_set_platform c' t = Ok r
-              /\ a_permit (t_ace r) = permit
-              /\ forall k, denb (t_ace r) k = denb (t_ace t) k.
+  (** the converted entry, explicitly: same fields, the addresses converted *)
+  Theorem ace_conversion_shape :
+    ace_set_platform c' t = Ok (mkTace true sq (mkAce permit n (conv_addr pl' s) (conv_addr pl' d) p1 p2 flags logs) opts)
+    /\ addr_src mem pl' limit (conv_addr pl' s) /\ addr_src mem pl' limit (conv_addr pl' d)
+    /\ sets_of (conv_addr pl' s) = sets_of s /\ sets_of (conv_addr pl' d) = sets_of d.
   Proof.
-    destruct Hs as (B1 & N1 & A1). destruct Hd as (B2 & N2 & A2).
     destruct Hp1 as (P1 & E1). destruct Hp2 as (P2 & E2). destruct Ho as (O1 & O2 & O3 & O4).
-    destruct (reader_single pl limit ssp s B1 A1) as (ty1 & w1 & ->).
-    destruct (reader_single pl limit dsp d B2 A2) as (ty2 & w2 & ->).
-    destruct (reader_std pl limit ssp ty1 w1 Hpl B1 N1 A1) as (_ & a1 & m1 & Ha1 & Hm1 & NW1).
-    destruct (reader_std pl limit dsp ty2 w2 Hpl B2 N2 A2) as (_ & a2 & m2 & Ha2 & Hm2 & NW2).
-    destruct (retype_reparse pl' limit a1 m1 w1 ty1 Hpl' Ha1 Hm1 NW1) as (RS & SRC & S1 & S2 & S3).
-    destruct (retype_reparse pl' limit a2 m2 w2 ty2 Hpl' Ha2 Hm2 NW2) as (RD & DST & D1 & D2 & _).
-    set (t' := mkTace true sq (mkAce permit n (retype pl' (ASingle ty1 w1)) (retype pl' (ASingle ty2 w2)) p1 p2 flags logs) opts).
+    destruct (addr_conv mem pl pl' limit s Hpl Hpl' Hs) as (RS & (SRC & S1 & S2 & S3) & AS & ES).
+    destruct (addr_conv mem pl pl' limit d Hpl Hpl' Hd) as (RD & (DST & D1 & D2 & _) & AD & ED).
+    split; [|auto].
+    set (t' := mkTace true sq (mkAce permit n (retype pl' s) (retype pl' d) p1 p2 flags logs) opts).
     assert (R : parse_ace_text c' (render_ace c' t') =
-                Ok (mkTace true sq (mkAce permit n (ASingle (std_type pl' w1) w1) (ASingle (std_type pl' w2) w2) p1 p2 flags logs) opts)).
-    { apply (ace_text_reparse c' t' eq_refl SRC DST (ASingle (std_type pl' w1) w1) (ASingle (std_type pl' w2) w2));
+                Ok (mkTace true sq (mkAce permit n (reparsed pl' s) (reparsed pl' d) p1 p2 flags logs) opts)).
+    { apply (ace_text_reparse c' t' eq_refl SRC DST (reparsed pl' s) (reparsed pl' d));
         cbn [t_ace t' a_src a_dst a_proto a_sport a_dport a_flags a_logs t_option_line plat c' is15 port_nr protocol_nr max_ncwb];
         fold limit pc'.
       - auto.
@@ -198,26 +245,35 @@ Section Conv.
       - auto. }
     unfold ace_set_platform. cbn [t_ace t a_permit a_proto a_src a_dst a_sport a_dport a_flags a_logs t_type_ext t_seq t_option_line plat c'].
     fold t'. rewrite R. cbn [bind t_ace a_src a_dst a_permit a_proto a_sport a_dport a_flags a_logs t_type_ext t_seq t_option_line].
-    eexists. split; [reflexivity|]. split; [reflexivity|].
-    intros k. unfold denb. reflexivity.
+    destruct s, d; reflexivity.
+  Qed.
+
+  Theorem ace_conversion :
+    exists r, ace_set_platform c' t = Ok r
+              /\ a_permit (t_ace r) = permit
+              /\ forall k, denb (t_ace r) k = denb (t_ace t) k.
+  Proof.
+    destruct ace_conversion_shape as (E & _ & _ & ES & ED).
+    eexists. split; [exact E|]. split; [reflexivity|].
+    intros k. unfold denb. cbn [t_ace t a_src a_dst a_proto a_sport a_dport a_flags]. now rewrite ES, ED.
   Qed.
 End Conv.
 
 (** * the whole (flat) list: Acl.platform on reader-built entries *)
-Definition reader_built (c : cfg) (pl' : platform) (t : tace) : Prop :=
-  exists permit n sq ssp dsp s d toks1 toks2 p1 p2 opts flags logs,
+Definition reader_built (mem : bool) (c : cfg) (pl' : platform) (t : tace) : Prop :=
+  exists permit n sq s d toks1 toks2 p1 p2 opts flags logs,
     t = mkTace true sq (mkAce permit n s d p1 p2 flags logs) opts
     /\ n <= 255
-    /\ (sp_bounds ssp /\ ~ is_n1 (plat c) ssp /\ addr_of_spelling (plat c) (Z.of_nat (max_ncwb c)) ssp = Ok s)
-    /\ (sp_bounds dsp /\ ~ is_n1 (plat c) dsp /\ addr_of_spelling (plat c) (Z.of_nat (max_ncwb c)) dsp = Ok d)
+    /\ addr_src mem (plat c) (Z.of_nat (max_ncwb c)) s
+    /\ addr_src mem (plat c) (Z.of_nat (max_ncwb c)) d
     /\ (parse_port pl' (proto_ctx pl' (is15 c) n) toks1 = Ok p1 /\ (proto_ctx pl' (is15 c) n = None -> p1 = empty_port))
     /\ (parse_port pl' (proto_ctx pl' (is15 c) n) toks2 = Ok p2 /\ (proto_ctx pl' (is15 c) n = None -> p2 = empty_port))
     /\ (Forall token opts /\ Forall af opts /\ parse_option opts = Ok (flags, logs)
         /\ split_dstport_option (render_port (port_nr c) (proto_ctx pl' (is15 c) n) p2 ++ opts)
            = (render_port (port_nr c) (proto_ctx pl' (is15 c) n) p2, opts)).
 
-Definition item_built (c : cfg) (pl' : platform) (i : aitem) : Prop :=
-  match i with AIRemark _ _ => True | AIAce t => reader_built c pl' t end.
+Definition item_built (mem : bool) (c : cfg) (pl' : platform) (i : aitem) : Prop :=
+  match i with AIRemark _ _ => True | AIAce t => reader_built mem c pl' t end.
 
 (** an entry that the port-ungrouping step leaves as it is *)
 Definition item_unsplit (c : cfg) (i : aitem) : Prop :=
@@ -229,15 +285,15 @@ Definition item_unsplit (c : cfg) (i : aitem) : Prop :=
 Definition sem_item (i : aitem) : Shading.item ace :=
   match i with AIAce t => Shading.IAce "" (t_ace t) | AIRemark _ _ => Shading.IRemark "" end.
 
-Lemma reader_built_converts c pl' t :
-  (plat c = Ios \/ plat c = Nxos) -> (pl' = Ios \/ pl' = Nxos) -> reader_built c pl' t ->
+Lemma reader_built_converts mem c pl' t :
+  (plat c = Ios \/ plat c = Nxos) -> (pl' = Ios \/ pl' = Nxos) -> reader_built mem c pl' t ->
   exists r, ace_set_platform (mkCfg pl' (is15 c) (port_nr c) (protocol_nr c) (max_ncwb c)) t = Ok r
             /\ a_permit (t_ace r) = a_permit (t_ace t)
             /\ forall k, denb (t_ace r) k = denb (t_ace t) k.
 Proof.
-  intros Hpl Hpl' (permit & n & sq & ssp & dsp & s & d & toks1 & toks2 & p1 & p2 & opts & flags & logs
+  intros Hpl Hpl' (permit & n & sq & s & d & toks1 & toks2 & p1 & p2 & opts & flags & logs
                    & -> & Hn & Hs & Hd & Hp1 & Hp2 & Ho).
-  exact (ace_conversion c pl' Hpl Hpl' permit n sq ssp dsp s d toks1 toks2 p1 p2 opts flags logs Hn Hs Hd Hp1 Hp2 Ho).
+  exact (ace_conversion mem c pl' Hpl Hpl' permit n sq s d toks1 toks2 p1 p2 opts flags logs Hn Hs Hd Hp1 Hp2 Ho).
 Qed.
 
 Lemma unsplit_all c : forall items, Forall (item_unsplit c) items -> flat_map_res (split_titem c) items = Ok items.
@@ -247,31 +303,31 @@ Proof.
   destruct Hi as [b Hb]. rewrite Hb. cbn [bind fst map app]. destruct t; reflexivity.
 Qed.
 
-Lemma items_convert c pl' :
+Lemma items_convert mem c pl' :
   (plat c = Ios \/ plat c = Nxos) -> (pl' = Ios \/ pl' = Nxos) ->
-  forall items, Forall (item_built c pl') items ->
+  forall items, Forall (item_built mem c pl') items ->
   exists conv, map_res (item_set_platform (mkCfg pl' (is15 c) (port_nr c) (protocol_nr c) (max_ncwb c))) items = Ok conv
                /\ forall k, AclSem.decide denb a_permit (map sem_item conv) k = AclSem.decide denb a_permit (map sem_item items) k.
 Proof.
   intros Hpl Hpl'. induction 1 as [|i items Hi _ (conv & E & D)].
   - exists []. split; reflexivity.
   - destruct i as [t|sq tx].
-    + destruct (reader_built_converts c pl' t Hpl Hpl' Hi) as (r & Hr & Pr & Dr).
+    + destruct (reader_built_converts mem c pl' t Hpl Hpl' Hi) as (r & Hr & Pr & Dr).
       exists (AIAce r :: conv). cbn [SplitPorts.map_res item_set_platform]. rewrite Hr. cbn [bind]. rewrite E. cbn [bind].
       split; [reflexivity|]. intros k. cbn [map sem_item AclSem.decide]. now rewrite Dr, Pr, D.
     + exists (AIRemark sq tx :: conv). cbn [SplitPorts.map_res item_set_platform bind]. rewrite E. cbn [bind].
       split; [reflexivity|]. intros k. cbn [map sem_item AclSem.decide]. apply D.
 Qed.
 
-Theorem acl_conversion c pl' :
+Theorem acl_conversion mem c pl' :
   (plat c = Ios \/ plat c = Nxos) -> (pl' = Ios \/ pl' = Nxos) ->
-  forall items, Forall (item_built c pl') items -> (pl' = Nxos -> Forall (item_unsplit c) items) ->
+  forall items, Forall (item_built mem c pl') items -> (pl' = Nxos -> Forall (item_unsplit c) items) ->
   exists conv, acl_set_platform c (mkCfg pl' (is15 c) (port_nr c) (protocol_nr c) (max_ncwb c)) items = Ok conv
                /\ length conv = length items
                /\ forall k, AclSem.decide denb a_permit (map sem_item conv) k = AclSem.decide denb a_permit (map sem_item items) k.
 Proof.
   intros Hpl Hpl' items HB HU.
-  destruct (items_convert c pl' Hpl Hpl' items HB) as (conv & E & D).
+  destruct (items_convert mem c pl' Hpl Hpl' items HB) as (conv & E & D).
   exists conv. unfold acl_set_platform. cbn [plat].
   assert (L : forall its cv, map_res (item_set_platform (mkCfg pl' (is15 c) (port_nr c) (protocol_nr c) (max_ncwb c))) its = Ok cv -> length cv = length its).
   { induction its as [|x its IH]; intros cv Hc; cbn [SplitPorts.map_res] in Hc.
